@@ -1,13 +1,13 @@
 SPECIFICATION Spec
 CONSTANTS
-  Kind = "EMG"
+  Kind = "FPData"
   NI = 2
-  MaxItems = 3
+  MaxItems = 2
   MaxChan = 3
-  Labels = {1, 2}
-  Chans = {0, 1, 2}
-  Edits = FALSE
-  AutoRule = "max"
+  Labels = {1}
+  Chans = {1}
+  Edits = TRUE
+  AutoRule = "len"
 INVARIANT InvConforms
 INVARIANT InvAligned
 INVARIANT InvDisjoint
